@@ -192,4 +192,17 @@ def cnvByConst (n resSize resCols resCol aSize aCols aCol bSize cnvOffset : Nat)
     i64save (n * resCols) (n * resCol) minSize blk (0, 0) (3, 0)) ++
   (List.range' minSize (resSize - minSize)).map (fun j => wt 0 (n * (j * resCols + resCol)) n)
 
+/-! ### the same two operations with the column checks of the proposed repair (docs/fixes): `assert!(res_col < res.cols())`,
+`assert!(a_col < a.cols())`, `assert!(b_col < b.cols())` at entry -/
+
+def cnvApplyChecked (m resSize resCols resCol aSize aCols aCol bSize bCols bCol cnvOffset : Nat) : Outcome (List Acc) :=
+  if ¬ (resCol < resCols ∧ aCol < aCols ∧ bCol < bCols) then .panic "assert"
+  else if ¬ (1 ≤ aSize ∧ 1 ≤ bSize) then .panic "assert"                       -- reim4_convolution: assert!(a_size > 0), assert!(b_size > 0)
+  else .ok (cnvApply m resSize resCols resCol aSize aCol bSize bCol cnvOffset)
+
+def cnvByConstChecked (n resSize resCols resCol aSize aCols aCol bSize cnvOffset : Nat) : Outcome (List Acc) :=
+  if ¬ (resCol < resCols ∧ aCol < aCols) then .panic "assert"
+  else if ¬ (1 ≤ aSize) then .panic "assert"                                   -- i64_convolution_by_const: assert!(a_size > 0)
+  else .ok (cnvByConst n resSize resCols resCol aSize aCols aCol bSize cnvOffset)
+
 end Kern
